@@ -20,7 +20,22 @@ LEVEL = "other"
 
 def constructed_sequencers(F, fn_base):
     out = set()
-    for fn in F.find(fn_base):
+    fns = list(F.find(fn_base))
+    # follow file-local / static factory helpers the overrider delegates to (two levels)
+    seen = {f.key for f in fns}
+    frontier = fns
+    for _ in range(2):
+        nxt = []
+        for fn in frontier:
+            for n, b, rk, e in fn.nodes():
+                if n.get("k") == "call" and not n.get("virt"):
+                    for t in F.targets(n):
+                        if t.key not in seen and "/draco/" in t.file and not t.cls:
+                            seen.add(t.key)
+                            nxt.append(t)
+        fns += nxt
+        frontier = nxt
+    for fn in fns:
         for n, b, rk, e in fn.nodes():
             if n.get("k") == "new":
                 t = strip_targs(n.get("t", ""))
